@@ -749,11 +749,14 @@ int reb_collision_resolve_hardsphere(struct reb_simulation* const r, struct reb_
     double dvz2nn = stheta * dvy2n;    
 
 
+    // Two massless particles bounce off each other like equal mass particles (avoids 0/0).
+    const int massless = (p1.m+p2.m == 0.);
+
     // Applying the changes to the particles.
 #ifdef MPI
     if (isloc==1){
 #endif // MPI
-    const double p2pf = p1.m/(p1.m+p2.m);
+    const double p2pf = massless ? 0.5 : p1.m/(p1.m+p2.m);
     particles[c.p2].vx -=    p2pf*dvx2n;
     particles[c.p2].vy -=    p2pf*dvy2nn;
     particles[c.p2].vz -=    p2pf*dvz2nn;
@@ -761,7 +764,7 @@ int reb_collision_resolve_hardsphere(struct reb_simulation* const r, struct reb_
 #ifdef MPI
     }
 #endif // MPI
-    const double p1pf = p2.m/(p1.m+p2.m);
+    const double p1pf = massless ? 0.5 : p2.m/(p1.m+p2.m);
     particles[c.p1].vx +=    p1pf*dvx2n; 
     particles[c.p1].vy +=    p1pf*dvy2nn; 
     particles[c.p1].vz +=    p1pf*dvz2nn; 
